@@ -1,6 +1,7 @@
 package props
 
 import (
+	"crypto/rand"
 	"encoding/json"
 	"fmt"
 	"math"
@@ -9,6 +10,7 @@ import (
 	"reflect"
 	"runtime"
 	"sync"
+	"sync/atomic"
 	"testing"
 
 	"pgregory.net/rapid"
@@ -29,11 +31,32 @@ type c14Op struct {
 	Reps   int    `json:"n"`
 }
 
+// concReader is a goroutine-safe random source written in Go (every Read
+// takes the next value of an atomic counter through a mixing function). With
+// the OS source the bytes are written by a system call the race detector does
+// not see; with this reader a buffer shared between goroutines becomes visible
+// to it.
+type concReader struct {
+	ctr uint64
+	key uint64
+}
+
+func (r *concReader) Read(p []byte) (int, error) {
+	for i := 0; i < len(p); i += 8 {
+		w := ev.Mix64(r.key, atomic.AddUint64(&r.ctr, 1))
+		for j := i; j < i+8 && j < len(p); j++ {
+			p[j] = byte(w >> (8 * uint(j-i)))
+		}
+	}
+	return len(p), nil
+}
+
 type c14Case struct {
 	Char   oracle.CharSpec `json:"char"`
 	WL     gen.WLSpec      `json:"wl"`
 	Preset string          `json:"preset"`
 	Procs  int             `json:"procs"`
+	GoSrc  uint64          `json:"go_source,omitempty"` // != 0: use the Go-implemented source with this key
 	G      [][]c14Op       `json:"goroutines"`
 }
 
@@ -44,6 +67,12 @@ func c14Run(c c14Case) error {
 	}
 	spareCap = 4
 	defer func() { spareCap = 0 }()
+	if c.GoSrc != 0 {
+		oldR := rand.Reader
+		rand.Reader = &concReader{key: c.GoSrc}
+		defer func() { rand.Reader = oldR }()
+		ev.Class("go_implemented_source")
+	}
 	old := runtime.GOMAXPROCS(c.Procs)
 	defer runtime.GOMAXPROCS(old)
 	cr := toRecipe(c.Char)
@@ -222,7 +251,11 @@ func c14Base(t *rapid.T) c14Case {
 	if w.Sep.Kind == "const" && rapid.Bool().Draw(t, "use_preset") {
 		w.Sep = gen.SepSpec{Kind: "preset", Preset: rapid.SampledFrom(gen.Presets).Draw(t, "wpreset")}
 	}
-	return c14Case{Char: sp, WL: w, Preset: rapid.SampledFrom(gen.Presets).Draw(t, "preset"), Procs: rapid.SampledFrom([]int{2, 4, 16}).Draw(t, "procs")}
+	var gs uint64
+	if rapid.Bool().Draw(t, "go_source") {
+		gs = rapid.Uint64Range(1, 1<<62).Draw(t, "go_source_key")
+	}
+	return c14Case{GoSrc: gs, Char: sp, WL: w, Preset: rapid.SampledFrom(gen.Presets).Draw(t, "preset"), Procs: rapid.SampledFrom([]int{2, 4, 16}).Draw(t, "procs")}
 }
 
 func c14Gen(t *rapid.T) c14Case {
